@@ -77,7 +77,11 @@ def _run_variant(args):
         newv = [(o.rule, o.instance) for o in chk.obs if o.status == 'violation' and o.key() not in baseline]
         if chk.errors and not newv:
             return idx, 'refused', chk.errors[0][:200]
-        return idx, 'violations', newv[:6]
+        # one representative instance per rule (a table rule may report dozens)
+        per_rule = {}
+        for r, i in newv:
+            per_rule.setdefault(r, i)
+        return idx, 'violations', sorted(per_rule.items())
     finally:
         shutil.rmtree(d, ignore_errors=True)
 
